@@ -625,8 +625,11 @@ class printcore():
         if not (self.printing and self.printer and self.online):
             self.clear = True
             return
-        if self.resendfrom < self.lineno and self.resendfrom > -1:
-            self._send(self.sentlines[self.resendfrom], self.resendfrom, False)
+        # Read the counter once: the listener thread may store a new
+        # resend request between the check and the lookup
+        resendfrom = self.resendfrom
+        if resendfrom < self.lineno and resendfrom > -1:
+            self._send(self.sentlines[resendfrom], resendfrom, False)
             self.resendfrom += 1
             return
         self.resendfrom = -1
